@@ -33,9 +33,15 @@ class C11(Check):
         names = [("ra", "X"), ("ra", "Y"), ("rb", "P"), ("rb", "Q")]
         rng.shuffle(names)
         names = names[: rng.randint(1, 3)]
+        if rng.random() < 0.2:
+            # a second type whose name differs from an existing one only by letter case (legal on a case-sensitive file system):
+            # for the port-ID rules these are two different names
+            rn0, sh0 = names[0]
+            names.append((rn0, sh0.lower()))
         mports = [0, 0, 6144, 7167, 8191]
         sports = [0, 0, 256, 511]
         used = set()
+        used_ci = set()
         for (rn, short) in names:
             nver = rng.randint(1, 4)
             kind0 = rng.random() < 0.3
@@ -50,9 +56,10 @@ class C11(Check):
             wide_minors = rng.random() < 0.25  # minors with different digit counts (9 vs 10, 3 vs 25, 20 vs 100)
             for M in majors:
                 m = rng.choice([2, 3, 9, 10, 11, 20, 25, 99, 100, 101, 255]) if wide_minors else rng.randint(0, 4)
-                if (M, m) == (0, 0) or (rn, short, M, m) in used:
-                    continue
+                if (M, m) == (0, 0) or (rn, short, M, m) in used or (rn, short.lower(), M, m) in used_ci:
+                    continue  # (names that differ only by letter case must not share a version)
                 used.add((rn, short, M, m))
+                used_ci.add((rn, short.lower(), M, m))
                 svc = kind0 if rng.random() < 0.85 else not kind0
                 # mostly consistent with the family, sometimes not
                 sealed = base_sealed if rng.random() < 0.8 else not base_sealed
@@ -112,6 +119,18 @@ class C11(Check):
             ref = {"name": "%s.Ref%d" % (rn, i), "ver": [1, 0], "port": rport, "ext": "dsdl", "dep": False,
                    "secs": [{"union": False, "hdr": None, "seal": "sealed", "items": [["f", ["ref", tgt["name"], tgt["ver"][0], tgt["ver"][1]], "r"]]}]}
             roots[host_root]["defs"].append(ref)
+        fams = {}
+        for ri, d in alld:
+            if len(d["secs"]) == 1:
+                fams.setdefault((d["name"], d["ver"][0]), []).append((ri, d))
+        multi = [v for v in fams.values() if len(v) >= 2]
+        if multi and rng.random() < 0.5:
+            # one referrer per minor version of a family (two users pinned to different minors of the same type)
+            fam = rng.choice(multi)
+            for j, (ri, tgt) in enumerate(fam[:3]):
+                rn = roots[0]["name"]
+                roots[0]["defs"].append({"name": "%s.RefM%d" % (rn, j), "ver": [1, 0], "port": None, "ext": "dsdl", "dep": False,
+                                         "secs": [{"union": False, "hdr": None, "seal": "sealed", "items": [["f", ["ref", tgt["name"], tgt["ver"][0], tgt["ver"][1]], "r"]]}]})
         if not any(r0["defs"] for r0 in roots):
             roots[0]["defs"].append({"name": "ra.Solo", "ver": [1, 0], "port": None, "ext": "dsdl", "dep": False, "secs": [body(rng, 1, True, None)]})
         ws = {"roots": [r0 for r0 in roots]}
@@ -165,6 +184,14 @@ class C11(Check):
                     targets = rng.sample(targets, rng.randint(1, len(targets)))
             troots = {uni.root_of[k] for k in targets}
             op = W.rf_op(rng, uni, targets, [x for x in range(nroots) if x not in troots], allow_unreg=True)
+            for a in op["roots"]:
+                a["st"] = "abs" if a["st"] == "name" else a["st"]
+            reads.append(op)
+        refs_only = [k for k in keys if ".Ref" in k]
+        if len(refs_only) >= 2:
+            # only the referrers are targets: every family member is reached as a dependency - the rules hold among those too
+            troots = {uni.root_of[k] for k in refs_only}
+            op = W.rf_op(rng, uni, refs_only, [x for x in range(nroots) if x not in troots], allow_unreg=True)
             for a in op["roots"]:
                 a["st"] = "abs" if a["st"] == "name" else a["st"]
             reads.append(op)
